@@ -58,6 +58,13 @@ def _child_main(inv: dict, wfd: int) -> None:
         import tempfile
 
         tempfile.tempdir = None  # (cached by the warm parent: the child's TMPDIR decides again, as in a new process)
+        if inv.get("sys_path_prepend"):
+            # entries a wrapper, an IDE or another project's PYTHONPATH put in front of the interpreter's search path
+            import importlib
+
+            for extra in reversed(inv["sys_path_prepend"]):
+                sys.path.insert(0, extra)
+            importlib.invalidate_caches()
         os.chdir(inv["cwd"])
         os.umask(inv.get("umask", 0o022))
         seams = Seams(inv, sink=sink)
